@@ -1211,7 +1211,8 @@ func (vx *Vaxis) handleSequence(seq ansi.Sequence) {
 			}
 		}
 		if strings.HasPrefix(string(seq.Payload), "176") {
-			vals := strings.Split(string(seq.Payload), ";")
+			// the id is everything behind the first semicolon
+			vals := strings.SplitN(string(seq.Payload), ";", 2)
 			if len(vals) != 2 {
 				log.Error("invalid OSC 176 payload")
 				return
